@@ -617,6 +617,7 @@ fn execute(plan: &Plan) -> (Vec<(usize, u64)>, Option<String>) {
 
 fn main() {
     env::install_panic_hook();
+    let _ = refmodel::ed::set_torsion_anchor(&constants::EIGHT_TORSION[1].compress().to_bytes());
     let args: Vec<String> = std::env::args().skip(1).collect();
     match args.first().map(|s| s.as_str()) {
         // exec-plan FILE : one plan (JSON), prints LOG lines like dalek-sim exec-plan
